@@ -102,7 +102,8 @@ CHECKS = {
             'of ~60 public callables on a shared pool of caller-owned objects are recorded on lentil (content digests of every '
             'object before/after each call, result digest, numpy global-generator digest, call key) and every event is judged by '
             'TLC against Frame / Memo (history variable) / RngIsolation / Continuity, with total verdicts. PlaneHist.tla models '
-            'one plane under OPD updates, ramps, tilt fits and copies; TLC enumerates all short histories and samples long ones, '
+            'planes under OPD updates, ramps, tilt fits, trimmed recorded tilts and copies, a tilt element that is steered or edited '
+            'in place, and the wavefronts a caller keeps after they passed (HeldFrozen); TLC enumerates all short histories and samples long ones, '
             'each is replayed on a real Pupil and every observation must equal the exact field of the effective state. The sessions are '
             'recorded a second time by a fresh process in reverse session order and both recordings are validated as ONE trace, so Memo '
             'ranges over two histories of the library\'s module-level state.',
